@@ -71,6 +71,10 @@ EXPR_OVERRIDE = {'guards': {1: 'range(L(1))', 2: 'not L(2)'}, 'string-structure'
 CHAIN_TEMPLATES = {
     'inline-macro': ('<div tal:define="t L(0)">\n <p metal:define-macro="m">${L(1)}</p>\n ${L(2)}</div>', 3,
                      {0: ['L(0)'], 1: ['L(1)'], 2: ['L(2)']}),
+    # a failure inside a macro that tal:on-error handled must leave nothing behind for a later, unrelated failure
+    'after-handled-macro-failure': ('<div><hide tal:condition="False"><i metal:define-macro="m">${nope}</i></hide>'
+                                    '<p tal:on-error="string:handled"><u metal:use-macro="macros[\'m\']"/></p>\n'
+                                    '<b>${L(0)}</b>\n <q tal:content="L(1)"/></div>', 2, {0: ['L(0)'], 1: ['L(1)']}),
     'recursive-macro': ('<div metal:define-macro="tree" tal:define="d d + 1">\n ${L(0) if d == 3 else d}\n'
                         ' <b tal:condition="d &lt; 3" metal:use-macro="template.macros[\'tree\']" />\n</div>', 1,
                         {0: ['L(0) if d == 3 else d', "template.macros['tree']", "template.macros['tree']"]}),
